@@ -222,10 +222,6 @@ def once(vc):
             fns=[SC + "Scenario.stepForward"], mode="Z", bounded="2 targets, 2 sensors, 2 events per scope",
             note="scenario-scope events are handled by the scenario over (previous epoch, next epoch]; every propagation event is handed to the target agent it names (and to that target's estimate iff planned) before the clock ticks; every observation-generation event is handed to the sensor it names over (previous epoch, new epoch], after prediction and before tasking")
 def dispatch(vc):
-    if not vc.symbolic:
-        for n in ("O-C01-dispatch.windows", "O-C01-dispatch.propagation-events", "O-C01-dispatch.observation-events", "O-C01-dispatch.scenario-events"):
-            vc.ensure(n, True)
-        return
     lg = []
     evs = {"AGENT_PROPAGATION": [SF.Event(lg, "imp-planned", 2, planned=True), SF.Event(lg, "imp-unplanned", 1, planned=False)],
            "OBSERVATION_GENERATION": [SF.Event(lg, "bias", 11)]}
